@@ -153,7 +153,8 @@ NT = 8
 DANGLING = (1 << 64) - 1
 
 
-DERIVED_BUNDLES = {10: (1, 2), 11: (2, 1), 12: (0, 4, 3), 13: (6, 5, 7, 1), 14: (3,), 15: (1, 1), 16: (2, 3, 7), 17: (7, 3, 2)}
+DERIVED_BUNDLES = {10: (1, 2), 11: (2, 1), 12: (0, 4, 3), 13: (6, 5, 7, 1), 14: (3,), 15: (1, 1), 16: (2, 3, 7), 17: (7, 3, 2),
+                   18: (1, 2), 19: (1, 5), 20: (1, 3)}        # 18..20: one generic derived struct at three instantiations
 DERIVED_BY_TYPES = {v: k for k, v in DERIVED_BUNDLES.items() if k != 15}
 
 
@@ -217,7 +218,7 @@ class WorldGen:
         """returns (encoding, types, has repeated types)"""
         if derived and types is None and self.r.random() < 0.12:
             # a derived Bundle struct (kinds 10..15; 15 names a type twice): fields in the declared order
-            kind = self.r.choice([10, 11, 12, 13, 14, 15, 16, 17] if allow_dup else [10, 11, 12, 13, 14, 16, 17])
+            kind = self.r.choice([10, 11, 12, 13, 14, 15, 16, 17, 18, 19, 20] if allow_dup else [10, 11, 12, 13, 14, 16, 17, 18, 19, 20, 18, 19, 20])
             ts = DERIVED_BUNDLES[kind]
             return BEnc([kind, len(ts)] + [x for t in ts for x in (t, self.val())]), list(ts), kind == 15
         if allow_dup and self.r.random() < 0.5:
@@ -346,7 +347,7 @@ class WorldGen:
             skind = 0
             if r.random() < 0.12:
                 # S is a derived Bundle struct: partial misses (an earlier field present, a later one absent) matter
-                skind = r.choice([10, 11, 12, 13, 14, 16, 17])
+                skind = r.choice([10, 11, 12, 13, 14, 16, 17, 18, 19, 20])
                 ts = DERIVED_BUNDLES[skind]
             if op == 3:
                 if skind:
@@ -1044,7 +1045,7 @@ SERDE_Q = [0, 1, 2, 4, 5, 10, 12, 13, 15, 24, 25]        # catalogue entries use
 MUT_PARAMS = [0, 1, 2, 3, 4, 5, 7, 100, 1 << 32, (1 << 32) + 3, (1 << 33) + 1, (2 << 32) + 7, (1 << 32) + 40]
 
 
-def serde_case(universe, rnd, nops, malformed):
+def serde_case(universe, rnd, nops, malformed, large=False):
     g = WorldGen(rnd, rnd.choice(["default", "alloc", "batch"]))
     g.small = True
     if rnd.random() < 0.1:
@@ -1055,6 +1056,16 @@ def serde_case(universe, rnd, nops, malformed):
             g.emit(15, 0, len(ts), ts, n, [g.val() for _ in range(n * len(ts))]); g.materialise(0); g.add(0, True, ts, n=n)
         for fmt in (0, 1):
             g.emit(90, 0, fmt, rnd.randrange(2), 0, len(QASTS[0]), QASTS[0], 0)
+    if large or (not malformed and rnd.random() < 0.003):
+        # one archetype with more than 4096 entities (sizes at which a decoder may stop trusting announced counts)
+        n = 4097          # ids 0..4096: the id-targeted spawns of the decoder are exercised up to id 4096 on both sides
+        ts = rnd.choice([[1], [1, 2], [1, 5]])
+        g.emit(15, 0, len(ts), ts, n, [g.val() for _ in range(n * len(ts))]); g.materialise(0); g.add(0, True, ts, n=n)
+        for reader in (0, 1):
+            g.emit(90, 0, 1, reader, 0, len(QASTS[0]), QASTS[0], 0)
+        g.emit(90, 0, 0, 0, 0, len(QASTS[0]), QASTS[0], 0)
+        g.emit(21, 0, 21, 1)
+        return [1] + universe + g.out
     for _ in range(nops):
         g.step()
         if rnd.random() < 0.25:
@@ -1083,8 +1094,8 @@ def serde_case(universe, rnd, nops, malformed):
 def gen_serde(malformed, quick_n, thorough_n):
     def gen(tier, seed, universe):
         rnd = random.Random(seed)
-        for _ in range(quick_n if tier == "quick" else thorough_n):
-            yield serde_case(universe, rnd, rnd.randrange(3, 30), malformed)
+        for i in range(quick_n if tier == "quick" else thorough_n):
+            yield serde_case(universe, rnd, rnd.randrange(3, 30), malformed, large=(i == 0 and not malformed))
     return gen
 
 
